@@ -702,3 +702,68 @@ def st_case_update(draw, js=False, join_p=4, multi_match=False):
     if join is not None and bw > 0 and draw(st.integers(0, 2)) == 0:
         q['where'] = e_strict_b(ctx)
     return {'A': A, 'B': B, 'a_names': a_names, 'b_names': b_names, 'q': q}
+
+
+# ---------------------------------------------------------------------------------------------
+# typed cells (list / pandas / sqlite tables hold ints, floats, bools, None - not only strings)
+
+TYPED_POOL = [0, 1, 2, -1, 10, 1.5, 0.0, True, False, None, '', 'a', 'b', '1', '0']
+TYPED_POOL_JS = [0, 1, 2, -1, 10, None, '', 'a', 'b', '1', '0']
+
+
+@st.composite
+def st_case_typed(draw, js=False, order=True, distinct=True, top=True):
+    """SELECT cases over tables with typed cells; expressions are restricted to forms that are
+    total on every cell type (field, star, identity / None tests, NR arithmetic)."""
+    pool = TYPED_POOL_JS if js else TYPED_POOL
+    width = draw(st.integers(1, 3))
+    ragged = draw(st.booleans())
+    A = []
+    for _ in range(draw(st.integers(0, 6))):
+        w = draw(st.integers(0, width)) if ragged else width
+        A.append([draw(st.sampled_from(pool)) for _ in range(w)])
+    ctx = Ctx(draw, width, None, js=js)
+
+    def f():
+        return field(ctx, table='a')
+
+    def cond():
+        k = draw(st.integers(0, 5))
+        if k == 0:
+            return f()
+        if k == 1:
+            return both('({} is None)', '({} === null)', 'bool', f())
+        if k == 2:
+            return both('({} == {})', '({} === {})', 'bool', f(), f()) if js else both('({} == {})', None, 'bool', f(), f())
+        if k == 3:
+            m = draw(st.integers(2, 3))
+            return mk('NR %% %d' % m, 'NR %% %d' % m, 'int')
+        if k == 4:
+            return both('(not {})', '(!{})', 'bool', f())
+        return both('({} is not None and NR > 1)', '({} !== null && NR > 1)', 'bool', f())
+    want_distinct = draw(st.sampled_from([None, None, 'distinct', 'count'])) if distinct else None
+    items = []
+    for _ in range(draw(st.integers(1, 4))):
+        k = draw(st.integers(0, 7))
+        if k == 0:
+            items.append({'k': 'star'})
+        elif k == 1:
+            items.append({'k': 'astar'})
+        elif k == 2:
+            items.append({'k': 'expr', 'e': {'py': 'NR', 'js': 'NR', 'name': {'id': 'NR'}, 'ty': 'int'}})
+        elif k == 3:
+            items.append({'k': 'expr', 'e': cond()})
+        elif k == 4 and want_distinct is None and not any(it['k'] == 'unnest' for it in items):
+            items.append({'k': 'unnest', 'e': both('[{}, {}]', '[{}, {}]', 'list', f(), f()), 'sp': 'UNNEST'})
+        else:
+            items.append({'k': 'expr', 'e': f()})
+    q = {'type': 'select', 'items': items, 'join': None}
+    if want_distinct:
+        q['distinct'] = want_distinct
+    if draw(st.booleans()):
+        q['where'] = cond()
+    if order and draw(st.integers(0, 2)) == 0:
+        q['order'] = {'keys': [draw(st.sampled_from([mk('NR % 2', 'NR % 2', 'int'), mk('-NR', '-NR', 'int'), mk('NF', 'NF', 'int')]))], 'desc': draw(st.booleans()), 'asc_kw': False}
+    if top and draw(st.integers(0, 2)) == 0:
+        q['top'] = {'n': draw(st.integers(0, len(A) + 1)), 'form': draw(st.sampled_from(['TOP', 'LIMIT']))}
+    return {'A': A, 'B': None, 'a_names': None, 'b_names': None, 'q': q, 'typed': True}
